@@ -7,39 +7,57 @@
 -/
 import KB.Lemmas.Retry
 namespace KB.C09
-open KB Generated
+open KB Generated KB.SysStore
 
 /-- Never mis-reported (1): a write acknowledged as successful was applied by the engine. -/
 theorem ack_ok_applied {g0 g : G} (h0 : C02.Init g0) (hr : Reachable g0 g) (d : Done) (hd : d ∈ g.done)
     (rev : Nat) (hres : d.res = .ok rev) :
-    ∃ w ∈ g.wlog, w.rev = rev ∧ w.key = d.kind.key := by
-  sorry
+    ∃ w ∈ g.wlog, w.rev = rev ∧ w.key = d.kind.key :=
+  (AckInv.reachable h0 hr).ok d hd rev hres
 
 /-- Never mis-reported (2): a request answered with a definite conflict (or not-found) applied nothing. -/
 theorem conflict_not_applied {g0 g : G} (h0 : C02.Init g0) (hr : Reachable g0 g) (d : Done) (hd : d ∈ g.done)
     (hres : (∃ h kv, d.res = .condFailed h kv) ∨ (∃ h, d.res = .notFound h)) :
-    ∀ w ∈ g.wlog, w.rev ≠ d.rev := by
-  sorry
+    ∀ w ∈ g.wlog, w.rev ≠ d.rev :=
+  (AckInv.reachable h0 hr).cf d hd hres
 
 /-- Never mis-reported (3): when the engine answers a commit with "outcome unknown", the commit-level
 result the request acts on is `uncertain` — whether the batch landed or not — and the client gets that error. -/
 theorem unknown_is_reported_uncertain (c : Cfg) (st : Store) (ops : List BOp) (st' : Store)
     (hok : commit c.q st ops = .ok st') (f : Fault) (hf : f = .uncApplied ∨ f = .uncNotApplied) :
     (doCommit c st ops f).1 = .uncertain ∧ commitErr (doCommit c st ops f).1 = .uncertain := by
-  sorry
+  unfold doCommit
+  rw [hok]
+  rcases hf with rfl | rfl <;> exact ⟨rfl, rfl⟩
 
 /-- Later requests keep flowing: C04's accounting holds under every placement of faults (its theorems
 quantify over all `Fault`s); restated here for the retry loop's own revisions. -/
 theorem retry_revision_resolved (g : G) (f : Fault) (w : WEvent) (rest : List WEvent) (hq : g.retryQ = w :: rest)
     (hd : (stepRetry g f).dealt = g.dealt + 1) :
     ∃ s ∈ (stepRetry g f).slots, s.rev = g.dealt + 1 := by
-  sorry
+  revert hd
+  apply stepRetry_cases (P := fun g' => g'.dealt = g.dealt + 1 → ∃ s ∈ g'.slots, s.rev = g.dealt + 1)
+  · intro h; omega
+  · intro _ h; simp at h
+  · intro w rest q val r st _ _ _ _
+    refine ⟨{ w with rev := g.dealt + 1, valid := r == .ok, uncertain := r == .uncertain }, ?_, rfl⟩
+    simp [G.notify]
 
 /-- Compaction does not advance past the unresolved revision. -/
 theorem compaction_capped (c : Cfg) (s : BState) (rev : Nat) (mask : Nat → DelOutcome) (w : WEvent)
     (rest : List WEvent) (hq : s.retryQ = w :: rest) (R : Nat) (h : (doCompact c s rev mask).1 = .ok R) :
     R ≤ w.rev - 1 := by
-  sorry
+  unfold doCompact at h
+  simp only [hq, List.head?_cons] at h
+  generalize (if (rev == 0 || decide (rev > s.committed)) = true then s.committed else rev) = rev' at h
+  generalize (List.foldl (β := Bytes × Bytes) (α := BState × Nat × Bool) _ _ (pairs (compactBorders c))) = x at h
+  obtain ⟨_, _, pan⟩ := x
+  cases pan with
+  | true => simp at h
+  | false =>
+    simp only [Bool.false_eq_true, if_false, ScanRes.ok.injEq] at h
+    subst h
+    exact Nat.min_le_left _ _
 
 /-- The oldest unresolved revision stays at the head: whatever the repair write returns except success
 or a failed condition, the entry is still queued (so compaction stays capped and the repair is retried). -/
@@ -50,7 +68,16 @@ theorem unrepaired_stays_queued (g : G) (f : Fault) (w : WEvent) (rest : List WE
         [BOp.cas (idxKey w.key) (be8 (g.dealt + 1) ++ (if isTomb val then [0] else []))
            (be8 w.rev ++ (if isTomb val then [0] else [])), BOp.put (encode w.key (g.dealt + 1)) val] = .ok st') :
     (stepRetry g f).retryQ = w :: rest := by
-  sorry
+  obtain ⟨st', hc⟩ := hcommit
+  have hl : (val.length == 0) = false := by
+    cases val with
+    | nil => exact absurd rfl hne
+    | cons _ _ => rfl
+  unfold stepRetry
+  simp only [hq, hget, hl, bne_self_eq_false, Bool.or_self, Bool.false_eq_true, if_false]
+  unfold doCommit
+  simp only [hc]
+  rcases hf with rfl | rfl | rfl <;> simp [G.notify, G.logWrite, applied, CommitRes.isCas] <;> (split <;> rfl)
 
 /-- The last applied write of a key, as the ghost log has it. -/
 def lastWrite (l : List WLog) (k : Bytes) : Option (Nat × Option Bytes) :=
@@ -68,14 +95,58 @@ def ValuesOK (sched : List Action) : Prop :=
   ∀ a ∈ sched, (∀ id k v, a = .begin id (.create k v) → v ≠ [] ∧ v ≠ tombstone) ∧
                (∀ id k v e, a = .begin id (.update k v e) → v ≠ [] ∧ v ≠ tombstone)
 
-/-- Convergence: once the engine answers again and the queue has drained, store and watch stream
-agree — for every key the last write the engine applied is the last event handed to the watchers
-(same revision, same kind), whatever unknown-outcome faults occurred and whether or not they landed.
-Hence replaying the delivered events over the initial snapshot yields the final state. -/
+/-- Counterexample to `convergence` as stated. Keys `"2"` and `"2$\0\0\0\0\0\0\0\5"`: every internal key
+of the second lies between the internal keys `("2", 5)` and `("2", 6)` of the first. Request 1 creates `"2"`
+at revision 1 with outcome "unknown, applied"; request 2 creates the other key at revision 2. The sequencer
+queues revision 1 for repair and emits revision 2. The retry loop reads the newest version of `"2"`: the
+descending iteration from `("2", 2^64-1)` first meets a record of the other key, decode-and-compare fails,
+the read answers "not found" and the queue entry is dropped. The state is quiescent, the last applied write
+of `"2"` is revision 1, and no event for `"2"` was ever emitted. -/
+def cexSched : List Action :=
+  [ .begin 1 (.create [50] [1]), .step 1 .none, .begin 2 (.create [50, 36, 0, 0, 0, 0, 0, 0, 0, 5] [1]),
+    .step 2 .none, .step 2 .none, .step 1 .uncApplied, .seq, .seq, .retry .none ]
+
+theorem convergence_counterexample :
+    C02.Init {} ∧ ({} : G).store = [] ∧ ({} : G).emitted = [] ∧ ValuesOK cexSched ∧ Quiescent (run {} cexSched) ∧
+      (run {} cexSched).dealt < 2 ^ 64 ∧
+      (lastWrite (run {} cexSched).wlog [50]).map (fun p => (p.1, p.2.isNone)) = some (1, false) ∧
+      lastEvent (run {} cexSched).emitted [50] = none ∧
+      (run {} cexSched).done.map (·.res) = [.ok 2, .error .uncertain] := by
+  refine ⟨⟨by decide, rfl, rfl, rfl⟩, rfl, rfl, ?_, ⟨by decide, by decide, by decide⟩, by decide, by decide,
+    by decide, by decide⟩
+  intro a ha
+  simp only [cexSched, List.mem_cons, List.not_mem_nil, or_false] at ha
+  rcases ha with rfl | rfl | rfl | rfl | rfl | rfl | rfl | rfl | rfl <;>
+    refine ⟨?_, ?_⟩ <;> (intros; rename_i e; cases e) <;> decide
+
+/-- Convergence, for keys over the documented alphabet (every byte above the split byte): once the engine
+answers again and the queue has drained, store and watch stream agree — for every key the last write the
+engine applied is the last event handed to the watchers (same revision, same kind), whatever unknown-outcome
+faults occurred and whether or not they landed. -/
 theorem convergence {g0 : G} (h0 : C02.Init g0) (hs : g0.store = []) (hem : g0.emitted = [])
-    (sched : List Action) (hv : ValuesOK sched) (hq : Quiescent (run g0 sched))
+    (sched : List Action) (hv : ValuesOK sched)
+    (hal : ∀ a ∈ sched, ∀ id kind, a = .begin id kind → Alphabet kind.key)
+    (hq : Quiescent (run g0 sched))
     (hb : (run g0 sched).dealt < 2 ^ 64) (k : Bytes) :
     (lastWrite (run g0 sched).wlog k).map (fun p => (p.1, p.2.isNone)) = lastEvent (run g0 sched).emitted k := by
-  sorry
+  have hok : ∀ a ∈ sched, ActOK a := by
+    intro a ha id kind e
+    refine ⟨hal a ha id kind e, ?_⟩
+    intro v hw
+    cases kind with
+    | create k' v' =>
+      simp only [ReqKind.wval, Option.some.injEq] at hw
+      subst hw
+      exact (hv a ha).1 id k' v' e
+    | update k' v' ex =>
+      simp only [ReqKind.wval, Option.some.injEq] at hw
+      subst hw
+      exact (hv a ha).2 id k' v' ex e
+    | delete k' ex => cases hw
+  have hcv := Cv.run h0 hs hem sched hok hb
+  have ctx := Ctx.reachable h0 hs ⟨sched, rfl⟩
+  have := hcv.converged ctx hb hq.2.1 hq.2.2 k
+  simp only [lastWrite, lastEvent, Option.map_map]
+  exact this
 
 end KB.C09
